@@ -208,36 +208,23 @@ func init() {
 			return fmt.Sprintf("ops=%s;out=%s;tmp=%s;query=%s;qtmp=%s", strings.Join(opsSeen, " "), fileState(out),
 				fileState(out+".tmp"), fileState(out+".query"), fileState(out+".query.tmp"))
 		}
-		// kill enumeration: find how many traced syscalls precede the first operation in dir (dry run on a copy of
-		// the state), then kill at that offset + k
+		// kill enumeration: only system calls on the four paths of this outfile are traced (-P) and the write runs on one
+		// locked thread, so a dry run on the same state lists the file operations in order; strace counts injections per
+		// system call name, so the k-th operation is the i-th call of its name
+		paths := []string{"-P", out, "-P", out + ".tmp", "-P", out + ".query", "-P", out + ".query.tmp"}
 		pre := fileState(out)
-		_, trace := runChild()
-		lines := strings.Split(trace, "\n")
-		// strace counts injections per tracee (thread): find the thread that performs the
-		// operations and the number of its traced calls before the first one
-		tid := ""
-		for _, l := range lines {
-			if strings.Contains(unx(l), dir+"/out.csv") {
-				tid = strings.Fields(l)[0]
-				break
-			}
-		}
-		first := -1
-		n := 0
-		for _, l := range lines {
-			if tid == "" || !strings.HasPrefix(l, tid+" ") || strings.Contains(l, "resumed>") {
+		_, trace := runChild(paths...)
+		var names []string
+		for _, l := range strings.Split(trace, "\n") {
+			if strings.Contains(l, "resumed>") {
 				continue
 			}
-			if !(strings.Contains(l, " openat(") || strings.Contains(l, " write(") || strings.Contains(l, " rename")) {
-				continue
+			for _, n := range []string{"openat", "write", "renameat2", "renameat", "rename"} {
+				if strings.Contains(l, " "+n+"(") {
+					names = append(names, n)
+					break
+				}
 			}
-			n++
-			if first < 0 && strings.Contains(unx(l), dir+"/out.csv") {
-				first = n
-			}
-		}
-		if first < 0 {
-			return "no-ops-found"
 		}
 		// restore the initial state
 		for _, f := range []string{"", ".tmp", ".query", ".query.tmp"} {
@@ -249,7 +236,17 @@ func init() {
 		if preTmp != "none" {
 			os.WriteFile(out+".tmp", unhex(preTmp), 0o644)
 		}
-		runChild("-e", fmt.Sprintf("inject=openat,write,rename,renameat,renameat2:signal=SIGKILL:when=%d", first+kill-1))
+		if kill <= len(names) {
+			idx := 0
+			for _, n := range names[:kill] {
+				if n == names[kill-1] {
+					idx++
+				}
+			}
+			runChild(append(paths, "-e", fmt.Sprintf("inject=%s:signal=SIGKILL:when=%d", names[kill-1], idx))...)
+		} else {
+			runChild(paths...)
+		}
 		return fmt.Sprintf("killed;out=%s;tmp=%s;query=%s;qtmp=%s", fileState(out), fileState(out+".tmp"),
 			fileState(out+".query"), fileState(out+".query.tmp"))
 	}
